@@ -6,6 +6,8 @@ mod util;
 mod c10;
 mod c12;
 mod c11;
+mod canon;
+mod doc;
 
 fn main() {
     let mode = std::env::args().nth(1).unwrap_or_default();
@@ -44,6 +46,8 @@ fn dispatch(mode: &str, line: &str) -> String {
         "c10" => c10::run(line),
         "c12" => c12::run(line),
         "c11" => c11::run(line),
+        "doc" => doc::run_doc(line),
+        "val" => doc::run_val(line),
         _ => format!("bad-mode {mode}"),
     }
 }
